@@ -4,13 +4,13 @@ import "math"
 
 // ArcCenter is the centre parameterisation of an SVG elliptical arc.
 type ArcCenter struct {
-	CX, CY   float64
-	RX, RY   float64 // after the uniform scale-up for undersized radii
-	Phi      float64
-	Theta1   float64
-	Delta    float64 // signed sweep
-	Lambda   float64 // radii check value: > 1 means the radii were scaled up
-	Degenerate bool  // a radius is zero (or not a number): straight line
+	CX, CY     float64
+	RX, RY     float64 // after the uniform scale-up for undersized radii
+	Phi        float64
+	Theta1     float64
+	Delta      float64 // signed sweep
+	Lambda     float64 // radii check value: > 1 means the radii were scaled up
+	Degenerate bool    // a radius is zero (or not a number): straight line
 }
 
 // ArcToCenter converts the endpoint parameterisation (x1,y1) -> (x2,y2) with
